@@ -27,6 +27,8 @@ type Opt struct {
 	OptionalValues []string
 	Choices        []string
 	Base           int
+	// EnvSet: the harness has put this text into the option's environment variable for the current case
+	EnvSet *string
 	// TruthText: the spelling of the required / optional / hidden marks ("" = the usual "true"/"yes"); any text
 	// other than "", "false", "no" and "0" - exactly so spelled - sets a mark
 	TruthText       string
